@@ -1214,6 +1214,9 @@ Returns:
                     setattr(result, k, copy.deepcopy(v, memo))
                 except TypeError:
                     setattr(result, k, dill.copy(v))
+        # the copied 'wrapped' cost is detached from the copy's counter, monitor,
+        # penalty and constraints: rebuild it from the copy's own state when needed
+        result._live = False
         return result
 
     def _is_new(self):
